@@ -12,36 +12,36 @@ import (
 )
 
 type Profile struct {
-	MaxFields     int
-	MaxCmdDepth   int
-	MaxSubs       int
-	PosArgs       float64 // probability that a command has positional args
-	Required      float64
-	Choices       float64
-	Defaults      float64
-	Env           float64
-	Utf           float64 // non-ASCII names
-	BadDecl       float64 // deliberately colliding / malformed declarations
-	ArgvLen       int
-	Unknown       float64 // share of unknown option tokens
-	Weird         float64 // share of weird tokens / arbitrary bytes
-	Handlers      bool
-	Exec          bool
-	OptsMask      flags.Options // option bits allowed to vary
-	OptsAlways    flags.Options
-	NParses       int
-	WithModel     bool
-	WithHelp      bool
-	InitVals      float64
-	Namespaces    float64
-	ValueBad      float64 // share of values that do not convert
-	OnlyTypes     []string
+	MaxFields   int
+	MaxCmdDepth int
+	MaxSubs     int
+	PosArgs     float64 // probability that a command has positional args
+	Required    float64
+	Choices     float64
+	Defaults    float64
+	Env         float64
+	Utf         float64 // non-ASCII names
+	BadDecl     float64 // deliberately colliding / malformed declarations
+	ArgvLen     int
+	Unknown     float64 // share of unknown option tokens
+	Weird       float64 // share of weird tokens / arbitrary bytes
+	Handlers    bool
+	Exec        bool
+	OptsMask    flags.Options // option bits allowed to vary
+	OptsAlways  flags.Options
+	NParses     int
+	WithModel   bool
+	WithHelp    bool
+	InitVals    float64
+	Namespaces  float64
+	ValueBad    float64 // share of values that do not convert
+	OnlyTypes   []string
 }
 
 var defaultProfile = Profile{MaxFields: 5, MaxCmdDepth: 2, MaxSubs: 3, PosArgs: 0.3, Required: 0.15, Choices: 0.1, Defaults: 0.2,
 	Env: 0.1, Utf: 0.15, BadDecl: 0.03, ArgvLen: 7, Unknown: 0.08, Weird: 0.05, Handlers: true, Exec: true,
 	OptsMask: flags.HelpFlag | flags.PassDoubleDash | flags.IgnoreUnknown | flags.PrintErrors | flags.PassAfterNonOption,
-	NParses: 1, InitVals: 0.15, Namespaces: 0.3, ValueBad: 0.08}
+	NParses:  1, InitVals: 0.15, Namespaces: 0.3, ValueBad: 0.08}
 
 var typePool = []string{"str", "str", "str", "bool", "bool", "bool", "int", "int", "i8", "i16", "i32", "i64", "uint", "u8", "u16", "u32", "u64",
 	"f64", "f32", "dur", "Lstr", "Lstr", "Lint", "Lbool", "Li8", "Pstr", "Pint", "Pbool", "Mstr,int", "Mstr,str", "Mint,str", "Mstr,bool",
@@ -292,7 +292,7 @@ func (g *gen) optField(sc *scope) FieldDesc {
 		tags = append(tags, quoteTag("no-flag", "1"))
 	}
 	f.Tag = strings.Join(tags, " ")
-	if g.chance(g.p.BadDecl / 2) && len(f.Tag) > 3 {
+	if g.chance(g.p.BadDecl/2) && len(f.Tag) > 3 {
 		j := r.Intn(len(f.Tag))
 		f.Tag = f.Tag[:j] + f.Tag[j+1:]
 	}
